@@ -12,7 +12,7 @@ COQ_TARGETS = ["theories/Properties/C15.vo"]
 PROPERTY_FILES = ["theories/Properties/C15.v"]
 RULE = ("correspondence: the six transforms of CP01._handle_segment on ALL strings over {a,B,1,_,space} up to length 5 (quick) / {a,B,z,1,_,space} "
         "up to 6 (thorough), pascal/camel also over {a,B,1,_,e-acute,sharp-s}; the whole _handle_segment (refuted-cases inference, "
-        "latest_possible_case, skip, fix) on ALL token sequences up to length 3 over an 8-word pool x every policy of CP01 and CP02, plus seeded "
+        "latest_possible_case, skip, fix) on ALL token sequences up to length 3 over a 7-word (quick) / 8-word (thorough) pool x every policy of CP01 and CP02, plus seeded "
         "random sequences with ignore_words / ignore_words_regex and a malformed stream (control characters, full ASCII). monitor: real Linter fix "
         "runs, each CP rule x each valid policy (+ all five rules together) on dialect fixtures of every dialect and case/comment/non-ASCII/"
         "token mutations of them, token-wise comparison of input and output. non-trivial = a fix run that changed the text; distinct = "
@@ -260,7 +260,7 @@ def correspondence(ctx, coq_ok):
         locate.append(("apply_policy %s (non-ASCII alphabet) vs CP01._handle_segment transform" % p, items, strings2, outs))
 
     # (2) the whole _handle_segment on all token sequences up to length 3 over a word pool, every policy of CP01 and CP02
-    pool = ["select", "FROM", "Where", "fooBar", "a1", "_X", "+", "Ab_cD"] if thorough else ["select", "FROM", "Where", "fooBar", "a1", "+"]
+    pool = ["select", "FROM", "Where", "fooBar", "a1", "_X", "+", "Ab_cD"] if thorough else ["select", "FROM", "Where", "fooBar", "a1", "_x", "+"]
     seqs = [list(t) for n in range(4) for t in itertools.product(pool, repeat=n)]
     for code in ("CP01", "CP02"):
         for pol in policies_of(code):
@@ -589,8 +589,8 @@ EXTRA_SQL = [
 def build_tasks(ctx):
     rng = ctx.rng
     thorough = ctx.tier == "thorough"
-    per_dialect = 6 if thorough else 1
-    max_size = 6000 if thorough else 1500
+    per_dialect = 5 if thorough else 1
+    max_size = 5000 if thorough else 1200
     n_mut = 2 if thorough else 1
     mut_combos = 10 if thorough else 6
     single = [({r: p}, False) for r in sorted(NAMES) for p in policies_of(r)]
@@ -606,10 +606,11 @@ def build_tasks(ctx):
 
     def combos_full():
         out = [(dict(rp), feu, rng.random() < 0.06) for rp, feu in single]
-        for p in BASIC:
+        for p in (BASIC if thorough else ["consistent"]):
             out.append(({r: p for r in NAMES}, False, rng.random() < 0.06))
         out.append((all_mix(False), False, False))
-        out.append((all_mix(True), False, False))
+        if thorough:
+            out.append((all_mix(True), False, False))
         return out
 
     def combos_some(k):
@@ -731,6 +732,10 @@ def replay(ctx, data):
 
 
 def run(ctx, coq_ok):
+    import time
+    t0 = time.time()
     check_structure(ctx)
     correspondence(ctx, coq_ok)
+    t1 = time.time()
     monitor(ctx, coq_ok)
+    ctx.coverage_extra["phase_seconds"] = {"before_run": round(t0 - ctx.t0, 1), "correspondence": round(t1 - t0, 1), "monitor": round(time.time() - t1, 1)}
